@@ -103,7 +103,7 @@ def live_case(spec, res):
             # that come up within milliseconds of each other says nothing
             if a['priority'] > b['priority'] and ta and tb and a['warmup'] >= 1:
                 res.obs['live_priority_pairs_judged'] += 1
-                if min(tb) < max(ta) + 0.4:
+                if min(tb) < max(ta) - 0.3:      # (b is due a full second after a's last spawn: 1.3 s of slack for slow process start-up)
                     res.violation('C19/live:lower-priority-watcher-started-first',
                                   'workers of %s (priority %d) came up at %s, those of %s (priority %d) at %s'
                                   % (a['name'], a['priority'], sorted(ta), b['name'], b['priority'], sorted(tb)))
